@@ -9,6 +9,12 @@
 static const char* const HEX = "0123456789ABCDEF";
 static const char* const ALPHA = "ABCDEFGHIJKLMNOPQRSTUVWXYZabcdefghijklmnopqrstuvwxyz0123456789+/";
 
+// DFCC makes every static object nondeterministic before the harness runs; String::emptyData is
+// an immutable sentinel (ref 0, len 0, str -> its own len field) -- the state its constructor
+// leaves it in and that no String member may modify (ref == 0 payloads are never written)
+#define NV_STRING_STATICS() NV_ASSUME(String::emptyData.ref == 0 && String::emptyData.len == 0 && \
+                                      String::emptyData.str == (const char*)&String::emptyData.len)
+
 extern "C" {
 usize g_woff, g_woff2, g_cmp_wit, g_cmp_k; // ghosts of contracts/memory.c (unused here)
 byte g_out[8];   // bytes appended by Unicode::append (log of String::append(char))
@@ -23,7 +29,7 @@ bool uni_append_post(uint32 cp, bool ret)
   if(ret != (cp <= 0x10FFFF)) return false;
   if(!ret) return g_outn == 0;
   if(g_outn != (usize)n) return false;
-  for(int i = 0; i < n; i++) if(g_out[i] != e[i]) return false;
+  for(int i = 0; i < 4; i++) if(i < n && g_out[i] != e[i]) return false; // constant bound: n is symbolic
   return true;
 }
 bool uni_from_post(const char* ch, usize len, uint32 ret)
@@ -55,6 +61,7 @@ void h_length()
 // -------------------------------------------------------------- append(cp, str)
 void h_append()
 {
+  NV_STRING_STATICS();
   NV_INPUT(uint32, cp);
   String s;
   g_outn = 0;
@@ -73,7 +80,7 @@ void h_inverse()
   unsigned char e[4];
   int n = rfc3629_encode(cp, e);
   char* buf = new char[n + extra]; // exactly the encoding (+ arbitrary following bytes)
-  for(int i = 0; i < n; i++) buf[i] = (char)e[i];
+  for(int i = 0; i < 4; i++) if(i < n) buf[i] = (char)e[i]; // constant bound: n is symbolic
   uint32 back = Unicode::fromString(buf, n + extra);
   NV_CHECK(back == cp, "fromString(encoding of cp) == cp for every code point up to U+10FFFF");
   NV_CHECK(Unicode::length(buf[0]) == (usize)n, "length(lead byte) == length of the encoding");
@@ -108,6 +115,7 @@ void h_isValid()
 // -------------------------------------------------------------- String::fromHex(data, size)
 void h_fromHex()
 {
+  NV_STRING_STATICS();
   NV_INPUT(usize, size);
   NV_INPUT(usize, k);
   NV_INPUT(byte, v);
@@ -127,6 +135,7 @@ void h_fromHex()
 // -------------------------------------------------------------- String::fromBase64: arbitrary input
 void h_fromBase64_safety()
 {
+  NV_STRING_STATICS();
   NV_INPUT(usize, inlen);
   NV_ASSUME(inlen <= NV_MAXSZ);
   char* in = new char[inlen + 1];
@@ -146,6 +155,7 @@ void h_fromBase64_safety()
 #endif
 void h_fromBase64_roundtrip()
 {
+  NV_STRING_STATICS();
   NV_INPUT_ARR(byte, src, NV_B64_BYTES + 1);
   const usize n = NV_B64_BYTES;
   const usize groups = (n + 2) / 3;
